@@ -185,6 +185,7 @@ SUBJECTS = [
     ('native_meta', 'vm', 'laythe_core::object::native::NativeMeta', {}),
     ('instance_header', 'vm', 'laythe_core::object::instance::header::Header', {}),
     ('fiber', 'vm', 'fiber::Fiber', {}),
+    ('inline_cache', 'vm', 'cache::InlineCache', {}),
 ]
 
 
@@ -242,14 +243,18 @@ for _s in SUBJECTS:
     _mk(*_s)
 
 
-@obligation('C05.K1.roots_vm', 'C05', programs=('vm',))
+F46_SRC = ('fn make(n) {\n  class K { m() { return n; } }\n  return K();\n}\nfn call(o) { return o.m(); }\nlet first = make(0);\nlet tag = first.cls().str();\nprint(call(first));\n'
+           'first = nil;\nlet i = 1;\nlet bad = 0;\nwhile i < 60 {\n  let o = make(i);\n  if o.cls().str() == tag {\n    let r = call(o);\n    if r != i { bad = bad + 1; }\n  }\n  i = i + 1;\n}\nprint(bad);\n')
+F46_REPLAY = dict(kind='lay', source=F46_SRC, gc_stress=True, expect_stdout='0\n0\n')
+
+
+@obligation('C05.K1.roots_vm', 'C05', programs=('vm',), also=('C13',))
 def roots_vm(res, tier):
     """<Vm as TraceRoot>::trace: every managed reference the Vm holds is handed to a trace, except the fields listed as
     assumptions (redundant roots and the deliberately weak inline caches)"""
     skip = {'builtin': 'builtin classes and natives are symbols of the std / global modules, which are reached through packages (assumed, not checked)',
             'global_module': 'root module of the std package, reached through packages (assumed, not checked)',
             'current_fun': 'the function of the active call frame, reached through fiber.frames (assumed, not checked)',
-            'inline_cache': 'weak by design: entries are validated against the receiver class on every use (C13.K1); the address-reuse clause of C13 is out of reach',
             'gc': 'the allocator itself', 'io': 'no managed references', 'files': None}
     skip = {k: v for k, v in skip.items() if v}
     _tier(tier)
@@ -263,6 +268,7 @@ def roots_vm(res, tier):
     m = e.model
     m(r'^<(source::)?(files::)?VmFiles as (laythe_core::)?(managed::)?(\w+::)?Trace>::trace$', lambda e_, a, c_: e_.path_state['traced_vecs'].append('files') or UNIT)
     m(r'^<(laythe_core::)?(\w+::)*(Captures) as (laythe_core::)?(managed::)?(\w+::)?Trace>::trace$', lambda e_, a, c_: NotImplemented)
+    m(r'^<(cache::)?InlineCache as (laythe_core::)?(managed::)?(\w+::)?Trace>::trace$', lambda e_, a, c_: e_.path_state['traced_vecs'].append('inline_cache') or UNIT)
 
     def path(e):
         W.start(e)
@@ -274,7 +280,13 @@ def roots_vm(res, tier):
                 continue
             if not W.may_hold_managed(fty):
                 continue
-            W.leaves(e, v.field(e, i, fty).get(e), fty, out, True, 'Vm.' + nm)
+            fv = v.field(e, i, fty).get(e)
+            if nm == 'inline_cache':
+                # the entries of one cache are C05.K1.trace_inline_cache's subject; here: every cache of the Vm is handed to its trace
+                e.add_constraint(z3.ULE(fv.len, MAXN))
+                e.path_state['n_caches'] = fv.len
+                continue
+            W.leaves(e, fv, fty, out, True, 'Vm.' + nm)
         e.call(f, [Ref(Cell(v))])
         traced = e.path_state['traced']
         n = 0
@@ -286,9 +298,18 @@ def roots_vm(res, tier):
             e.check(z3.Implies(to_z3_bool(cond) if not isinstance(cond, bool) else z3.BoolVal(cond), hit),
                     'roots of the Vm: every managed reference the Vm holds is traced', {'missing': where})
         e.check('files' in e.path_state['traced_vecs'], 'roots of the Vm: the source files are traced')
+        ncache = sum(1 for x in e.path_state['traced_vecs'] if x == 'inline_cache')
+        e.check(e.path_state.get('n_caches') is not None and e.is_valid(e.path_state['n_caches'] == ncache),
+                'roots of the Vm: every inline cache is traced (its entries name classes and methods by address)', {'missing': 'Vm.inline_cache', 'traced': ncache})
         return {'references': n, 'traced': len(traced)}
     results = e.explore(path)
     for r in results:
+        for lab, ok, info in list(r.checks):
+            if not ok and 'inline_cache' in str(info):
+                res.fail('C05.K1:roots_vm:the inline caches name classes and methods nothing keeps alive',
+                         'the Vm does not trace its inline caches: an entry outlives the class it names, and once a new class is allocated at the same address the site '
+                         'hits the stale entry and calls the collected method', info, replay=F46_REPLAY)
+                r.checks.remove((lab, ok, info))
         if r.kind in ('oob', 'unreachable', 'ub', 'diverge', 'depth', 'panic'):
             res.fail(f'C05.K1:roots_vm:{r.kind}', f'Vm roots: path ends in {r.kind}: {str(r.info)[:200]}', {'path': str(r.info)})
     summarize_paths(res, e, results, lambda r: r.info if isinstance(r.info, dict) else None, key_prefix='C05.K1:roots_vm:', unwind_ok=False)
